@@ -431,6 +431,23 @@ class Interp:
                         except (_Break, _Continue):
                             pass
                         return
+                if en is not None and len(en[0]) == 1 and not en[1] and isinstance(st.target, ast.Tuple) and len(st.target.elts) == 2 and isinstance(st.target.elts[0], ast.Name):
+                    # for k, row in enumerate(T) / for k, (a, b) in enumerate(zip(A, B)) over arrays of unknown length: the k-th rows
+                    X = en[0][0]
+                    zc = call_of(X, 'zip') if isinstance(X, Sym) else None
+                    srcs = list(zc[0]) if zc is not None and not zc[1] else ([X] if isinstance(X, Sym) and not (X.struct and X.struct[0] == 'comp') else None)
+                    if srcs and all(isinstance(a_, Sym) for a_ in srcs):
+                        idx = Sym(st.target.elts[0].id)
+                        rows = [self.index(a_, idx, None) for a_ in srcs]
+                        self.path.events.append(('loop', 'rows of %s' % ', '.join(show(a_) for a_ in srcs), st.target.elts[0].id,
+                                                 Sym('rows(%s)' % show(srcs[0]), struct=('call', 'rows', tuple(srcs), {}))))
+                        env.set(st.target.elts[0].id, idx)
+                        self.assign(st.target.elts[1], tuple(rows) if zc is not None else rows[0], env)
+                        try:
+                            self.block(st.body, env)
+                        except (_Break, _Continue):
+                            pass
+                        return
                 self.path.events.append(('loop', show(itv), ast.unparse(st.target), itv))
                 item_len = itv.attrs.get('__item_length__') if isinstance(itv, Sym) else None
                 for nm in ast.walk(st.target):
